@@ -320,7 +320,18 @@ def run_query(b, q, mem_gb):
                 r.status = 'vacuous'; r.detail = 'witness not reachable (smt route)'
             return r
         cmd = base + SOLVER_FLAGS[sv]
-        rc, o, e, s, to = sh(cmd, timeout=budget, mem_gb=mem_gb)
+        if q.get('lazy_trace'):
+            # opt-in: decide without counterexample traces first (building a trace costs time proportional to the whole equation
+            # for every reachable witness); only when an obligation fails is the query re-run with --trace for the inputs
+            rc, o, e, s, to = sh([x for x in cmd if x != '--trace'], timeout=budget, mem_gb=mem_gb)
+            pr0 = None if to else parse_cbmc_json(o)
+            if pr0 is not None and pr0[0] is not None and not any(p.get('status') == 'FAILURE' and not p.get('description', '').startswith('VF_WITNESS') for p in pr0[0]):
+                pass   # nothing but witnesses failed: this run is the verdict
+            else:
+                r.secs += s
+                rc, o, e, s, to = sh(cmd, timeout=budget, mem_gb=mem_gb)
+        else:
+            rc, o, e, s, to = sh(cmd, timeout=budget, mem_gb=mem_gb)
         r.secs += s
         r.solver = sv
         if to:
